@@ -542,3 +542,54 @@ func (e *Engine) literalDefineFun(sp *SpecFunc) string {
 	}
 	panic(cevalErr{"literal " + varName + " in " + sp.TableIn + ": not initialised from a string constant"})
 }
+
+// globalIsConstError: a package-level error variable initialised with errors.New /
+// fmt.Errorf in the package initialiser and never assigned anywhere else is non-nil.
+func (e *Engine) globalIsConstError(g *ssa.Global) bool {
+	initFn := g.Pkg.Func("init")
+	ok := false
+	for _, b := range initFn.Blocks {
+		for _, ins := range b.Instrs {
+			st, isS := ins.(*ssa.Store)
+			if !isS || st.Addr != g {
+				continue
+			}
+			v := st.Val
+			if mi, isMI := v.(*ssa.MakeInterface); isMI {
+				v = mi.X
+			}
+			c, isC := v.(*ssa.Call)
+			if !isC || c.Call.StaticCallee() == nil {
+				return false
+			}
+			switch funcKey(c.Call.StaticCallee()) {
+			case "errors.New", "fmt.Errorf":
+				ok = true
+			default:
+				return false
+			}
+		}
+	}
+	if !ok {
+		return false
+	}
+	for _, m := range g.Pkg.Members {
+		f, isF := m.(*ssa.Function)
+		if !isF || f.Name() == "init" {
+			continue
+		}
+		for _, ff := range append([]*ssa.Function{f}, f.AnonFuncs...) {
+			for _, b := range ff.Blocks {
+				for _, ins := range b.Instrs {
+					if s, isS := ins.(*ssa.Store); isS && s.Addr == g {
+						return false
+					}
+				}
+			}
+		}
+	}
+	e.mu.Lock()
+	e.used["package-level error "+g.Name()+" is initialised once with errors.New and never reassigned (non-nil)"] = true
+	e.mu.Unlock()
+	return true
+}
